@@ -21,85 +21,47 @@ def check(prog, rep):
 
     # ------------------------------------------------------------------ R1
     r1 = rep.rule("R1", "value chunks partition the value list for every length", floor=2)
-    env = {}
-    for st in wc.body:
+    # locate the value sequence: a local bound to data_dict["values"] (or the subscript itself)
+    seqs = [U(st.targets[0]) for st in wc.body if isinstance(st, ast.Assign) and "data_dict['values']" in U(st.value) and isinstance(st.targets[0], ast.Name)]
+    seq = seqs[0] if seqs else "data_dict['values']"
+    first_use = min((n.lineno for n in ast.walk(wc) if isinstance(n, ast.Name) and n.id == seq and isinstance(n.ctx, ast.Load)), default=None)
+    if first_use is None:
+        raise AnalysisError("write_cube: the value list is never read")
+    # the statements that emit values: everything from the binding of the value list on
+    start = next((k for k, st in enumerate(wc.body) if any(isinstance(n, ast.Name) and n.id == seq for n in ast.walk(st))), None)
+    emit_stmts = wc.body[start:]
+    consts = {}
+    for st in wc.body[:start]:
         if isinstance(st, ast.Assign) and isinstance(st.targets[0], ast.Name):
-            v = try_fold(st.value, env)
-            if v is not None:
-                env[st.targets[0].id] = v
-    loops = [s for s in wc.body if isinstance(s, ast.For) and isinstance(s.iter, ast.Call) and U(s.iter.func) == "range"
-             and any("len(" in U(a) for a in s.iter.args)]
-    if len(loops) != 1:
-        raise AnalysisError("write_cube: the chunked value loop was not found")
-    loop = loops[0]
-    ra = loop.iter.args
-    if len(ra) != 3:
-        raise AnalysisError(f"write_cube: unexpected range in the value loop: {U(loop.iter)}")
-    start, step = try_fold(ra[0], env), try_fold(ra[2], env)
-    lenexpr = U(ra[1])
-    seq = lenexpr[4:-1] if lenexpr.startswith("len(") else None
-    ivar = U(loop.target)
-    if start != 0 or not isinstance(step, int) or seq is None:
-        raise AnalysisError(f"write_cube: value loop {U(loop.iter)} left the analysable subset")
-    # collect the arms: (condition expr or None, slice lower, slice upper expr)
-    arms = []
-
-    def collect(stmts, conds):
-        local = dict(env)
-        for st in stmts:
-            if isinstance(st, ast.Assign) and isinstance(st.targets[0], ast.Name):
-                local[st.targets[0].id] = st.value
-            if isinstance(st, ast.If):
-                collect(st.body, conds + [(st.test, True)])
-                collect(st.orelse, conds + [(st.test, False)])
-                continue
-            for n in ast.walk(st):
-                if isinstance(n, ast.Subscript) and U(n.value) == seq and isinstance(n.slice, ast.Slice):
-                    lo, hi = n.slice.lower, n.slice.upper
-                    if isinstance(hi, ast.Name) and isinstance(local.get(hi.id), ast.AST):
-                        hi = local[hi.id]
-                    arms.append((conds, lo, hi, n.lineno))
-            writes = [c for c in calls_in(st) if U(c.func).endswith(".write")]
-    collect(loop.body, [])
-    if not arms:
-        raise AnalysisError("write_cube: no slices of the value list inside the loop")
-
-    def ev(expr, i, n):
-        if expr is None:
-            return None
-        e2 = {ivar: i}
-        e2.update({k: v for k, v in env.items() if isinstance(v, (int, float))})
-        txt = U(expr).replace(f"len({seq})", str(n))
-        try:
-            return eval(compile(ast.Expression(ast.parse(txt, mode="eval").body), "<c18>", "eval"), {"__builtins__": {}}, e2)  # noqa: S307 -- arithmetic on extracted constants only
-        except Exception as exc:  # noqa: BLE001
-            raise AnalysisError(f"write_cube: cannot evaluate bound {txt!r}: {exc}") from exc
-
+            v = try_fold(st.value, consts)
+            if isinstance(v, (int, float)):
+                consts[st.targets[0].id] = v
+    window = None
     bad_n = None
-    for n in range(0, 5 * step + 3):
+    strides = set()
+    for n in range(0, 45):
         cover = [0] * n
-        order_ok = True
-        lastpos = -1
-        for i in range(0, n, step):
-            for conds, lo, hi, _ in arms:
-                if all(bool(ev(t, i, n)) == pol for t, pol in conds):
-                    a = ev(lo, i, n) if lo is not None else 0
-                    b = ev(hi, i, n) if hi is not None else n
-                    for k in range(max(a, 0), min(b, n)):
-                        cover[k] += 1
-                        if k <= lastpos:
-                            order_ok = False
-                        lastpos = k
-        if any(c != 1 for c in cover) or not order_ok:
-            bad_n = (n, cover)
+        order = []
+        try:
+            emit_indices(emit_stmts, seq, n, dict(consts), cover, order, strides)
+        except AnalysisError:
+            raise
+        in_order = all(a < b for a, b in zip(order, order[1:]))
+        if any(c != 1 for c in cover) or not in_order:
+            bad_n = (n, cover, in_order)
             break
     r1.add("partition", bad_n is None,
-           f"loop step {step}, arms {[(' and '.join(('' if p else 'not ') + U(t) for t, p in c) or 'always', U(lo) if lo else '', U(hi) if hi else '') for c, lo, hi, _ in arms]}: "
-           + ("every index of the value list is written exactly once, in order, for all list lengths 0.."
-              f"{5 * step + 2} (bounds are periodic in the step)" if bad_n is None else
-              f"for a list of {bad_n[0]} values the per-index write counts are {bad_n[1]}"), ww)
-    consts = sorted({v for v in (step, env.get("stride")) if v is not None})
-    r1.add("one-stride", len(consts) == 1, f"step of the loop and the named stride fold to {consts}", ww)
+           "the index sets read from the value list while writing cover [0,n) exactly once and in increasing order for every list "
+           "length n = 0..44 (more than seven rows of six: the index arithmetic is periodic in the row length)" if bad_n is None else
+           f"for a list of {bad_n[0]} values the per-index write counts are {bad_n[1]}" + ("" if bad_n[2] else " and the order is not increasing"), ww)
+    row_lengths = sorted({k for k in strides if k})
+    r1.add("row-length", row_lengths != [] and max(row_lengths) <= 6, f"values per written row: {row_lengths} (cube format: at most six per line)", ww)
+    loop = None
+    for st in emit_stmts:
+        if isinstance(st, (ast.For, ast.While)):
+            loop = st
+    if loop is None:
+        loop = ast.Module(body=emit_stmts, type_ignores=[])
 
     # ------------------------------------------------------------------ R2
     r2 = rep.rule("R2", "values keep their file order (x outer, z inner)", floor=2)
@@ -155,14 +117,168 @@ def check(prog, rep):
     xyz = all(f"atom.{c}:" in src for c in "xyz")
     r3.add("atom-coordinates", xyz, "atom lines carry atom.x, atom.y, atom.z", ww)
 
+    # the reader's result is built from containers created inside the call (no state shared between conversions)
+    binds = [st for st in rd.body if isinstance(st, ast.Assign) and U(st.targets[0]) == "dx_dict"]
+    fresh = len(binds) == 1 and isinstance(binds[0].value, ast.Dict) and all(
+        isinstance(v, (ast.List, ast.Dict, ast.Constant, ast.Tuple)) or (isinstance(v, ast.Call) and U(v.func) in ("list", "dict")) for v in binds[0].value.values)
+    r3.add("reader-state-fresh", fresh, "read_dx builds its result from literals created in the call" if fresh else
+           f"read_dx builds its result from {U(binds[0].value) if binds else '?'}: containers that outlive the call are shared between conversions "
+           "(a second conversion in the same process appends to the first one's values)", wr)
     # ------------------------------------------------------------------ R4
     r4 = rep.rule("R4", "values are printed with >= 5 significant decimals in exponent format", floor=1)
     specs = set()
-    for n in walk_no_defs(loop):
-        if isinstance(n, ast.FormattedValue) and n.format_spec is not None:
-            specs.add(try_fold(n.format_spec))
+    for st_ in emit_stmts:
+        for n in ast.walk(st_):
+            if isinstance(n, ast.FormattedValue) and n.format_spec is not None:
+                specs.add(try_fold(n.format_spec))
     ok = bool(specs)
     for s in specs:
         m = re.search(r"\.(\d+)[eE]", s or "")
         ok &= bool(m) and int(m.group(1)) >= 5
     r4.add("value-spec", ok, f"value format specs: {sorted(map(str, specs))}", ww)
+
+
+def emit_indices(stmts, seq, n, env, cover, order, strides):
+    """Interpret the index arithmetic of the value-writing code for a value list of length n: every slice or iteration of the
+    list records the indices it reads.  Integer arithmetic only; len(seq) is n; slices follow Python's slice semantics."""
+    def ev(e):
+        if isinstance(e, ast.Constant):
+            return e.value
+        if isinstance(e, ast.Name):
+            if e.id in env:
+                return env[e.id]
+            raise AnalysisError(f"write_cube: free name {e.id} in the index arithmetic")
+        if isinstance(e, ast.Call):
+            name = U(e.func)
+            if name == "len" and U(e.args[0]) == seq:
+                return n
+            if name == "len":
+                v = ev(e.args[0])
+                return len(v)
+            if name == "divmod":
+                return divmod(ev(e.args[0]), ev(e.args[1]))
+            if name == "range":
+                return list(range(*[ev(a) for a in e.args]))
+            if name in ("min", "max", "int", "abs"):
+                return {"min": min, "max": max, "int": int, "abs": abs}[name](*[ev(a) for a in e.args])
+            if name == "enumerate":
+                return list(enumerate(ev(e.args[0])))
+            raise _Opaque()
+        if isinstance(e, ast.BinOp):
+            a, b = ev(e.left), ev(e.right)
+            ops = {ast.Add: lambda: a + b, ast.Sub: lambda: a - b, ast.Mult: lambda: a * b, ast.FloorDiv: lambda: a // b,
+                   ast.Mod: lambda: a % b, ast.Div: lambda: a / b}
+            if type(e.op) in ops:
+                return ops[type(e.op)]()
+            raise _Opaque()
+        if isinstance(e, ast.UnaryOp) and isinstance(e.op, ast.USub):
+            return -ev(e.operand)
+        if isinstance(e, ast.UnaryOp) and isinstance(e.op, ast.Not):
+            return not ev(e.operand)
+        if isinstance(e, ast.Compare) and len(e.ops) == 1:
+            a, b = ev(e.left), ev(e.comparators[0])
+            return {ast.Lt: a < b, ast.LtE: a <= b, ast.Gt: a > b, ast.GtE: a >= b, ast.Eq: a == b, ast.NotEq: a != b}[type(e.ops[0])]
+        if isinstance(e, ast.BoolOp):
+            vals = [ev(v) for v in e.values]
+            return all(vals) if isinstance(e.op, ast.And) else any(vals)
+        if isinstance(e, ast.Tuple):
+            return tuple(ev(x) for x in e.elts)
+        if isinstance(e, ast.Subscript) and U(e.value) == seq:
+            return ("idx", read(e))
+        raise _Opaque()
+
+    def read(sub):
+        """indices read by seq[...]"""
+        sl = sub.slice
+        if isinstance(sl, ast.Slice):
+            lo = ev(sl.lower) if sl.lower is not None else None
+            hi = ev(sl.upper) if sl.upper is not None else None
+            st = ev(sl.step) if sl.step is not None else None
+            return list(range(n))[slice(lo, hi, st)]
+        i = ev(sl)
+        return [list(range(n))[i]] if -n <= i < n else []
+
+    def record(idx):
+        strides.add(len(idx))
+        for k in idx:
+            cover[k] += 1
+            order.append(k)
+
+    def scan_reads(node):
+        """record reads of seq in an expression, innermost first; iteration over bare seq reads everything"""
+        for sub in ast.walk(node):
+            if isinstance(sub, ast.Subscript) and U(sub.value) == seq:
+                record(read(sub))
+            elif isinstance(sub, ast.comprehension) and U(sub.iter) == seq:
+                record(list(range(n)))
+
+    def run(block):
+        for st in block:
+            if isinstance(st, ast.Assign):
+                scan_reads(st.value)
+                try:
+                    val = ev(st.value)
+                except _Opaque:
+                    val = None
+                tg = st.targets[0]
+                if isinstance(tg, ast.Name):
+                    env[tg.id] = val
+                elif isinstance(tg, ast.Tuple) and isinstance(val, tuple) and len(val) == len(tg.elts):
+                    for e_, v_ in zip(tg.elts, val):
+                        env[U(e_)] = v_
+            elif isinstance(st, ast.AugAssign) and isinstance(st.target, ast.Name):
+                scan_reads(st.value)
+                try:
+                    cur, v = env.get(st.target.id), ev(st.value)
+                    env[st.target.id] = cur + v if isinstance(st.op, ast.Add) else cur - v if isinstance(st.op, ast.Sub) else None
+                except (_Opaque, TypeError):
+                    env[st.target.id] = None
+            elif isinstance(st, ast.Expr):
+                scan_reads(st.value)
+            elif isinstance(st, ast.If):
+                try:
+                    t = ev(st.test)
+                except _Opaque:
+                    raise AnalysisError(f"write_cube: undecidable test {U(st.test)!r} in the value-writing code")
+                run(st.body if t else st.orelse)
+            elif isinstance(st, ast.For):
+                if U(st.iter) == seq:
+                    record(list(range(n)))
+                    continue
+                try:
+                    it = ev(st.iter)
+                except _Opaque:
+                    raise AnalysisError(f"write_cube: loop over {U(st.iter)!r} is outside the index arithmetic")
+                if isinstance(it, tuple) and it and it[0] == "idx":
+                    record(it[1])
+                    continue
+                for item in it:
+                    if isinstance(st.target, ast.Name):
+                        env[st.target.id] = item
+                    elif isinstance(st.target, ast.Tuple):
+                        for e_, v_ in zip(st.target.elts, item):
+                            env[U(e_)] = v_
+                    run(st.body)
+            elif isinstance(st, (ast.Pass, ast.Return)):
+                continue
+            elif isinstance(st, ast.While):
+                guard = 0
+                while True:
+                    try:
+                        t = ev(st.test)
+                    except _Opaque:
+                        raise AnalysisError("write_cube: undecidable while-test in the value-writing code")
+                    if not t:
+                        break
+                    run(st.body)
+                    guard += 1
+                    if guard > 1000:
+                        raise AnalysisError("write_cube: value-writing loop does not terminate on the index arithmetic")
+            else:
+                raise AnalysisError(f"write_cube: statement {type(st).__name__} outside the recognised subset of the value-writing code")
+
+    run(stmts)
+
+
+class _Opaque(Exception):
+    pass
